@@ -398,7 +398,7 @@ def expected_project(ad):
     return d
 
 
-GATE_IGNORE = ("user_values_raw", "loaded_sunvox_version", "loaded_sunsynth_version")
+GATE_IGNORE = ("user_values_raw", "loaded_sunvox_version", "loaded_sunsynth_version", "/grid")
 
 
 def gate_diff(expected, observed):
@@ -429,7 +429,8 @@ def norm(s, side):
         while mods and mods[-1] is None:
             mods.pop()
         d["modules"] = mods
-        d["patterns"] = list(s["patterns"])
+        # the shape of the live cell grid is an in-memory observation (purity checks); files carry lines/tracks/cells
+        d["patterns"] = [({k: v for k, v in q.items() if k != "grid"} if isinstance(q, dict) else q) for q in s["patterns"]]
         return d
     if kind == "synth":
         d = dict(s)
